@@ -94,6 +94,9 @@ func (e *Exec) byteAt(s *SliceV, i int) *Term {
 	if s.a == nil || s.off+i >= len(s.a.b) || i < 0 {
 		return e.tb.BV(0, 8)
 	}
+	if e.trackAcc && s.a.global {
+		e.noteGlobalRead(s.a)
+	}
 	return s.a.b[s.off+i]
 }
 
@@ -279,7 +282,7 @@ func (e *Exec) copyBytes(dv, sv Value) Value {
 		m = k
 	}
 	if m > 0 && d.a.global {
-		e.noteGlobalWrite("copy")
+		e.noteGlobalWrite("copy", d.a)
 	}
 	// read all source bytes first (overlapping copies)
 	src := make([]*Term, m)
@@ -296,13 +299,43 @@ func (e *Exec) makeSlice(fr *Frame, in *ssa.MakeSlice) Value {
 	tb := e.tb
 	n := tb.Resize(e.get(fr, in.Len).(*Term), 64, isSigned(in.Len.Type()))
 	et := in.Type().Underlying().(*types.Slice).Elem()
+	var cp0 *Term
+	if in.Cap != nil {
+		cp0 = tb.Resize(e.get(fr, in.Cap).(*Term), 64, isSigned(in.Cap.Type()))
+		// runtime.makeslice: the capacity (as an int) must be non-negative, at least the length, and
+		// cap*elemsize must not exceed the address space (maxAlloc = 2^48 on linux/amd64)
+		if !cp0.isConst() || !n.isConst() {
+			esz := stdSizes.Sizeof(et)
+			if esz < 1 {
+				esz = 1
+			}
+			e.panicIf(tb.Or(tb.Slt(cp0, tb.BV(0, 64)), tb.Not(tb.Sle(cp0, tb.BV((int64(1)<<48)/esz, 64)))), "makeslice: cap out of range")
+			e.panicIf(tb.Or(tb.Slt(n, tb.BV(0, 64)), tb.Not(tb.Sle(n, cp0))), "makeslice: len out of range")
+		}
+	}
 	if !isByteType(et) {
 		if !n.isConst() {
-			e.fail("make of non-byte slice with symbolic length")
+			if isSigned(in.Len.Type()) {
+				e.panicIf(tb.Slt(n, tb.BV(0, 64)), "makeslice: len out of range")
+			}
+			// bound: symbolic lengths of element slices up to 64 are enumerated
+			if e.branch(tb.Not(tb.Ule(n, tb.BV(64, 64)))) {
+				e.fail("make of non-byte slice with symbolic length above 64")
+			}
+			n = tb.BV(int64(e.concretize(n, 64, "make length")), 64)
 		}
 		g := &GSliceV{}
 		for i := int64(0); i < n.i64(); i++ {
 			g.e = append(g.e, &Cell{v: e.zero(et)})
+		}
+		if cp0 != nil {
+			if cp0.isConst() {
+				for i := n.i64(); i < cp0.i64(); i++ {
+					g.spare = append(g.spare, &Cell{v: e.zero(et)})
+				}
+			} else {
+				g.capUnknown = true
+			}
 		}
 		return g
 	}
@@ -499,23 +532,29 @@ func (e *Exec) slice(fr *Frame, in *ssa.Slice) Value {
 			if l > h {
 				e.goPanicNow("slice bounds out of range")
 			}
-			return &GSliceV{e: arr.e[l:h]}
+			return &GSliceV{e: arr.e[l:h:h], spare: arr.e[h:len(arr.e):len(arr.e)]}
 		}
 		e.fail("slice of pointer to %T", s.c.v)
 	case *GSliceV:
-		l, h := 0, len(s.e)
-		if lo != nil {
-			e.panicIf(tb.Not(tb.Ule(lo, tb.BV(int64(len(s.e)), 64))), "slice bounds out of range")
-			l = e.concretize(lo, len(s.e), "slice low")
+		full := s.full()
+		l, h, m := 0, len(s.e), len(full)
+		if in.Max != nil {
+			mx := tb.Resize(e.get(fr, in.Max).(*Term), 64, isSigned(in.Max.Type()))
+			e.panicIf(tb.Not(tb.Ule(mx, tb.BV(int64(len(full)), 64))), "slice bounds out of range")
+			m = e.concretize(mx, len(full), "slice max")
 		}
 		if hi != nil {
-			e.panicIf(tb.Not(tb.Ule(hi, tb.BV(int64(len(s.e)), 64))), "slice bounds out of range")
-			h = e.concretize(hi, len(s.e), "slice high")
+			e.panicIf(tb.Not(tb.Ule(hi, tb.BV(int64(m), 64))), "slice bounds out of range")
+			h = e.concretize(hi, m, "slice high")
 		}
-		if l > h {
+		if lo != nil {
+			e.panicIf(tb.Not(tb.Ule(lo, tb.BV(int64(h), 64))), "slice bounds out of range")
+			l = e.concretize(lo, h, "slice low")
+		}
+		if l > h || h > m {
 			e.goPanicNow("slice bounds out of range")
 		}
-		return &GSliceV{e: s.e[l:h], isNil: s.isNil}
+		return &GSliceV{e: full[l:h:h], spare: full[h:m:m], isNil: s.isNil && h == 0 && m == 0, capUnknown: s.capUnknown}
 	}
 	e.fail("slice on %T", x)
 	return nil
@@ -627,7 +666,7 @@ func (e *Exec) appendBytes(a, b *SliceV) *SliceV {
 		nb = len(a.a.b) - a.off - la
 	}
 	if nb > 0 && a.a.global {
-		e.noteGlobalWrite("append into the backing array of a package-level slice")
+		e.noteGlobalWrite("append into the backing array of a package-level slice", a.a)
 	}
 	src := make([]*Term, nb)
 	for i := 0; i < nb; i++ {
